@@ -564,10 +564,13 @@ Definition run_classify (a : list val) : val :=
      exception for the header's transaction id, unit id and function code. *)
 Definition supported_fc (fc : N) : bool :=
   (fc =? 1) || (fc =? 2) || (fc =? 3) || (fc =? 4) || (fc =? 5) || (fc =? 6) || (fc =? 15) || (fc =? 16) || (fc =? 17) || (fc =? 23).
-Definition valid_exception_err (o : val) : bool :=
-  (* an *ErrorParseTCP with an exception code 1..4: its Bytes() are a 9-byte exception ADU *)
+Definition valid_exception_err (tid u fc : N) (o : val) : bool :=
+  (* an *ErrorParseTCP with an exception code 1..4 addressed to the frame it refuses (transaction
+     id, unit id and function code of the header): its Bytes() are the 9-byte exception ADU the
+     server sends (theorem C18_accepted_is_parsed_or_addressed_exception) *)
   match o with
-  | VL [VI 1%Z; VI 1%Z; VI 1%Z; VI _; VI _; VI _; VI c] => (1 <=? c)%Z && (c <=? 4)%Z
+  | VL [VI 1%Z; VI 1%Z; VI 1%Z; VI t; VI un; VI f; VI c] =>
+      (1 <=? c)%Z && (c <=? 4)%Z && Z.eqb t (Z.of_N tid) && Z.eqb un (Z.of_N u) && Z.eqb f (Z.of_N fc)
   | _ => false
   end.
 Definition verdict_classify_C18 (a : list val) (out : val) : N :=
@@ -582,7 +585,7 @@ Definition verdict_classify_C18 (a : list val) (out : val) : N :=
         if (N.to_nat (6 + len) <=? length v)%nat then
           (match po with
            | VL (VI 0%Z :: _) => HOLDS
-           | _ => if valid_exception_err po then HOLDS else VIOLATES
+           | _ => if valid_exception_err (fld16 v 0) (nth 6 v 0) fc po then HOLDS else VIOLATES
            end)
         else HOLDS
       else if (1 <=? fc) && (fc <? 128) && negb (supported_fc fc) && (3 <=? len) then
@@ -622,6 +625,15 @@ Definition verdict_classify_enc_C18 (a : list val) (out : val) : N :=
       end
   | _ => NOT_JUDGED
   end.
+
+(* ---------- package-level sentinel errors (C10: a result depends on its input only) ----------
+   sentinels: no arguments -> the fields and wire bytes of ErrTCPDataTooShort and ErrIsNotTCPPacket
+   after all the calls of the stream; the model has no state: they are what error.go declares *)
+Definition sentinel_val : val :=
+  VL [vN 0; vN 0; vN 0; vN 0; VB (exc_bytes_tcp (mk_exc 0 0 0 0))].
+Definition run_sentinels (a : list val) : val := VL [sentinel_val; sentinel_val].
+Definition verdict_sentinels_C10 (a : list val) (out : val) : N :=
+  if val_eqb out (VL [sentinel_val; sentinel_val]) then HOLDS else VIOLATES.
 
 (* ---------- the table of this layer ---------- *)
 Open Scope string_scope.
@@ -670,6 +682,8 @@ Definition table_packet : list entry :=
        e_verdict := fun p a o => if p =? 11 then verdict_coil_readback_C11 a o else NOT_JUDGED |};
     {| e_name := "classify"; e_run := run_classify;
        e_verdict := fun p a o => if p =? 18 then verdict_classify_C18 a o else NOT_JUDGED |};
+    {| e_name := "sentinels"; e_run := run_sentinels;
+       e_verdict := fun p a o => if (p =? 10) || (p =? 18) then verdict_sentinels_C10 a o else NOT_JUDGED |};
     {| e_name := "classify_enc"; e_run := run_classify_enc;
        e_verdict := fun p a o => if p =? 18 then verdict_classify_enc_C18 a o else NOT_JUDGED |}
   ].
